@@ -35,7 +35,48 @@ fn pick_query_kind(rng: &mut Rng) -> QKind {
 
 fn case1<T: Elem>(case: u64, spline: bool, args: &Args, ev: &mut Ev, log: &mut EventLog) {
     let mut rng = Rng::derive(args.seed, "C08", &[case]);
-    let (mut spec, lab) = if spline {
+    let many_lanes = spline && case % 40 == 7;
+    let (mut spec, lab) = if many_lanes {
+        // hundreds of lanes, every lane with its own (pairwise different) boundary condition
+        let lane_shape: Vec<usize> = match (case / 40) % 4 {
+            0 => vec![300],
+            1 => vec![20, 16],
+            2 => vec![3, 100],
+            _ => vec![257],
+        };
+        let n = 4 + rng.below(4);
+        let x: Vec<T> = gen_axis(&mut rng, n, AxisClass::DyadicRandom, &AxisOpts::spline());
+        let mut shape = vec![n];
+        shape.extend(&lane_shape);
+        let data = gen_data::<T>(&mut rng, &shape, DataClass::FullMantissa, (0, 0));
+        let lanes: usize = lane_shape.iter().product();
+        let rows: Vec<RB<T>> = (0..lanes)
+            .map(|l| match l % 3 {
+                0 => RB::Mixed(SB::FirstDeriv(T::of(l as f64 * 0.125 - 7.0)), SB::NotAKnot),
+                1 => RB::Mixed(SB::SecondDeriv(T::of(1.0 + l as f64 * 0.25)), SB::FirstDeriv(T::of(-(l as f64) * 0.5))),
+                _ => RB::Mixed(SB::Natural, SB::SecondDeriv(T::of(l as f64 * 0.0625))),
+            })
+            .collect();
+        let mut bshape = vec![1usize];
+        bshape.extend(&lane_shape);
+        let spec = Spec1::new(
+            data,
+            Some(Array1::from(x.clone())),
+            Strat1::Spline {
+                extrapolate: false,
+                boundary: Bound::Individual(ArrayD::from_shape_vec(IxDyn(&bshape), rows).unwrap()),
+            },
+        );
+        let lab = Labels {
+            axis: "dyadic-random".into(),
+            data: "full-mantissa".into(),
+            n_class: n_class(n, 3),
+            boundary: "Individual[all lanes different]".into(),
+            lanes: format!("{:?}", lane_shape),
+            uniform: is_uniform(&x),
+        };
+        (spec, lab)
+    } else if spline {
         let o = SplineOpts {
             max_n: 12,
             max_lane_rank: 5,
@@ -82,6 +123,9 @@ fn case1<T: Elem>(case: u64, spline: bool, args: &Args, ev: &mut Ev, log: &mut E
     ev.count("dim", spec.dim_name());
     ev.count("query_kind", kind.name());
     ev.count("elem", T::NAME);
+    if many_lanes {
+        ev.add("many_lane_cases", 1);
+    }
 
     let run = |s: &Spec1<T>| -> Outcome<ArrayD<T>> { build1(s, |r| match r {
         Ok(i) => i.many(&qa),
@@ -174,6 +218,47 @@ fn case1<T: Elem>(case: u64, spline: bool, args: &Args, ev: &mut Ev, log: &mut E
                 spec1_json(&spec_b).set("lane", j),
             );
             return;
+        }
+    }
+
+    // (B') many lanes: change only lane 0 (values and boundary); every other lane must stay
+    // bit-identical
+    if many_lanes {
+        let mut spec_d = spec.clone();
+        let mut flat: Vec<T> = spec.data.iter().copied().collect();
+        for i in 0..n {
+            flat[i * lanes] = T::of(1000.0 + i as f64 * 3.5);
+        }
+        spec_d.data = ArrayD::from_shape_vec(IxDyn(spec.data.shape()), flat).unwrap();
+        if let Strat1::Spline { boundary: Bound::Individual(b), extrapolate } = &spec.strat {
+            let mut rows: Vec<RB<T>> = b.iter().cloned().collect();
+            rows[0] = RB::Mixed(SB::FirstDeriv(T::of(-123.5)), SB::SecondDeriv(T::of(77.25)));
+            spec_d.strat = Strat1::Spline {
+                extrapolate: *extrapolate,
+                boundary: Bound::Individual(ArrayD::from_shape_vec(b.raw_dim(), rows).unwrap()),
+            };
+        }
+        match run(&spec_d) {
+            Outcome::Ok(d) => {
+                let flat_d: Vec<T> = d.iter().copied().collect();
+                for l in 1..lanes {
+                    ev.add("lanes_compared_under_perturbation", 1);
+                    let (ca, cd) = (lane_column(&flat_a, lanes, l), lane_column(&flat_d, lanes, l));
+                    if bits_of(&ca) != bits_of(&cd) {
+                        ev.violation(
+                            "C08:lane-depends-on-other-lanes",
+                            &format!("lane {l} of {lanes} (lane shape {:?}) changed when only lane 0 (values and boundary condition) was changed", lane_shape),
+                            case,
+                            spec1_json(&spec).set("lane", l),
+                        );
+                        return;
+                    }
+                }
+            }
+            o => {
+                ev.violation("C08:perturbed-problem-failed", &o.detail(), case, spec1_json(&spec_d));
+                return;
+            }
         }
     }
 
